@@ -817,6 +817,9 @@ def run(ctx):
     corr.append(("unicode-facts:generated-strings-within-pool-and-lower-charwise", facts_ok, ""))
     # the translator tie (gen/Detect_gen.v and its equality proofs): which part no longer checks, if any
     corr.extend(detect_tie.status())
+    # the translator tie of the pass orchestration (every accepted password is parsed exactly once, in pass 2)
+    import trainer_run_tie
+    corr.extend(trainer_run_tie.obligations())
     # negative control: one deliberately wrong expectation must be reported as a mismatch
     mw0 = make_detector([], [], kw)
     csecs, ccnt, _ = run_impl(mw0, ["a1"])
